@@ -104,7 +104,7 @@ def run(ctx):
 
     # 1. the specification by itself (in the background, as is the enumeration + replay of label programs)
     pool = concurrent.futures.ThreadPoolExecutor(max_workers=2)
-    stride = 16 if ctx.quick else 1
+    stride = 32 if ctx.quick else 1
 
     def design_check():
         cfg = os.path.join(CODEC, "_A64AsmMC_%d.cfg" % os.getpid())
